@@ -118,3 +118,230 @@ Definition eval_expr_impl (nilsafe : bool) (fuel : nat) (n : node) : outcome val
       end
   | o => o
   end.
+
+(* ------------------------------------------------------------------ *)
+(* 4. An INSTRUMENT for speaking about the call depth a run reaches (not a model
+   of any Go code): the walker that refuses to walk a node at a call depth above
+   [d].  [depth_] is the register [call_enter] increments around the callee's
+   body, so [cap d w] lets every node of the entry template and of callees up to
+   nesting [d] through and answers [Err e_capped] at the entry of the (d+1)-th
+   nested callee.  Fuel exhaustion stays [OutOfFuel]; the two causes of "no
+   answer" are thereby told apart.  Proofs/SafetyDepth.v shows that the capped
+   walker either reports the cap or IS the walker (same outcome, same state). *)
+
+Definition e_capped := Eval vm_compute in b "call depth cap".
+
+Definition cap (d : nat) (w : node -> M value) (n : node) : M value :=
+  fun st => if Nat.leb (depth_ st) d then w n st else (Err e_capped, st).
+
+Fixpoint walk_cap (cf : cfg) (d : nat) (fuel : nat) (n : node) {struct fuel} : M value :=
+  match fuel with
+  | O => lift OutOfFuel
+  | S f => walk_body cf (cap d (walk_cap cf d f)) n
+  end.
+
+(* ------------------------------------------------------------------ *)
+(* 5. Functions and print directives SUPPLIED BY THE USER (entries added to
+   soyhtml.Funcs / soyhtml.PrintDirectives) and the recover wrappers around
+   them: exec.go evalFunc (defer recover -> s.errorf) and evalPrint (the
+   func(){ defer recover -> s.errorf; result = directive.Apply(..) }() block).
+   The user's Go code is a parameter; what it can do is spelled out:
+   return a value (possibly the nil interface), panic, or not return at all
+   (spin, block, runtime.Goexit, os.Exit) -- the last is what no wrapper can
+   help with and is carried as [Diverge].  s.errorf panics with a soy error,
+   which Renderer.Execute's errRecover turns into the returned error: in the
+   model an [Err].  Values are the model's [value]s: a user-defined
+   implementation of data.Value is outside the model (its methods run wherever
+   the walker calls Truthy/String/Equals, under Execute's errRecover only). *)
+From Soy Require Import Model.Escape Model.Directives Model.Print.
+
+Inductive user_result :=
+| UReturn (v : option value)      (* None = a nil data.Value *)
+| UPanic (m : bstr)               (* panic(x), also a run-time error inside the user's code *)
+| UNoReturn.
+
+Definition e_userpanic := Eval vm_compute in b "panic in ".
+Definition e_nilresult := Eval vm_compute in b "nil value".
+
+(* evalFunc: r := fn.Apply(args); if r == nil { return data.Null{} }; the deferred recover
+   re-panics through s.errorf *)
+Definition recover_func (r : user_result) : outcome value :=
+  match r with
+  | UReturn (Some v) => Ok v
+  | UReturn None => Ok VNull
+  | UPanic m => Err (e_userpanic ++ m)
+  | UNoReturn => Diverge
+  end.
+
+(* evalPrint: result = directive.Apply(result, args) inside the wrapper.  A nil result is NOT checked:
+   it is the value the next directive receives ([None]); whoever calls a method on it panics with a nil
+   dereference -- a builtin's value.String() inside the next wrapper, or result.String() after the loop
+   under Execute's errRecover -- but json.Marshal(nil) is "null" and noAutoescape hands it through *)
+Definition recover_directive (r : user_result) : outcome (option value) :=
+  match r with
+  | UReturn x => Ok x
+  | UPanic m => Err (e_userpanic ++ m)
+  | UNoReturn => Diverge
+  end.
+
+Record user_func := { uf_arities : list N; uf_apply : list value -> user_result }.
+Record user_directive := { ud_arities : list N; ud_cancel : bool; ud_apply : option value -> list value -> user_result }.
+
+(* A HOOK is an entry of soyhtml.Funcs / soyhtml.PrintDirectives given by what the wrapped call
+   answers: a user entry is the hook [recover_* o apply]; Model/InterpJson.v uses the same mechanism for
+   the library functions Model/Interp.v leaves outside the model. *)
+Record func_hook := { fh_arities : list N; fh_apply : list value -> outcome value }.
+Definition hook_of_user (uf : user_func) : func_hook :=
+  {| fh_arities := uf_arities uf; fh_apply := fun vs => recover_func (uf_apply uf vs) |}.
+
+Inductive dir_impl :=
+| DBuiltin (fn : bstr) (nilapply : bool)                     (* an entry of the regenerated table, on String() images *)
+| DHook (apply : option value -> list value -> outcome (option value)).   (* on values (None = nil), wrapper included *)
+Record dir_entry := { de_arities : list N; de_cancel : bool; de_impl : dir_impl }.
+Definition dir_of_user (ud : user_directive) : dir_entry :=
+  {| de_arities := ud_arities ud; de_cancel := ud_cancel ud;
+     de_impl := DHook (fun v args => recover_directive (ud_apply ud v args)) |}.
+
+(* the regenerated table of builtin directives as a [dir_entry] table *)
+Definition builtin_dirs (name : bstr) : option dir_entry :=
+  match lookup_directive name with
+  | Some (arglens, (cancel, (nilapply, fn))) =>
+      Some {| de_arities := arglens; de_cancel := cancel; de_impl := DBuiltin fn nilapply |}
+  | None => None
+  end.
+(* the caller's additions shadow the builtin entries *)
+Definition dirs_with_user (udirs : bstr -> option user_directive) (name : bstr) : option dir_entry :=
+  match udirs name with Some ud => Some (dir_of_user ud) | None => builtin_dirs name end.
+Definition funcs_with_user (ufuncs : bstr -> option user_func) (name : bstr) : option func_hook :=
+  match ufuncs name with Some uf => Some (hook_of_user uf) | None => None end.
+
+Section Hooks.
+Variable cf : cfg.
+Variable fhooks : bstr -> option func_hook.     (* entries of soyhtml.Funcs handled here (they shadow Interp.apply_func) *)
+Variable dir_table : bstr -> option dir_entry.  (* soyhtml.PrintDirectives *)
+
+(* evalFunc on a hooked entry: arity check, arguments, Apply under the wrapper *)
+Definition hook_call (w : node -> M value) (h : func_hook) (args : list node) : M value :=
+  if negb (mem (N.of_nat (length args)) (fh_arities h)) then fail e_arity
+  else vs <-- eval_list w args ;;; lift (fh_apply h vs).
+
+Definition is_loop_func (name : bstr) : bool :=
+  Interp.fn_is name n_index || Interp.fn_is name n_isFirst || Interp.fn_is name n_isLast.
+
+(* directiveTruncate returns the VALUE itself when its String() fits (`return value`) *)
+Definition truncate_keeps (fn : bstr) (args : list darg) (s : bstr) : bool :=
+  Directives.fn_is fn fn_Truncate &&
+  match args with DInt n :: _ => (Z.of_nat (length s) <=? n)%Z | _ => false end.
+
+(* evalPrint's directive loop on VALUES (a hooked directive receives and returns a data.Value; the
+   builtin ones work on value.String() and return a data.String, except that noAutoescape and a
+   truncate that has nothing to cut return the value they were given) *)
+Fixpoint apply_dirs_hook (dirs : list (bstr * list value)) (v : option value) (esc : bool) : outcome (option value * bool) :=
+  match dirs with
+  | [] => Ok (v, esc)
+  | (name, args) :: rest =>
+      match dir_table name with
+      | None => Err e_nodirective
+      | Some de =>
+          if negb (check_num_args (de_arities de) (length args)) then Err e_arity
+          else
+            v' <- match de_impl de with
+                  | DBuiltin fn nilapply =>
+                      if nilapply then Err e_nilapply
+                      else if Directives.fn_is fn fn_NoAutoescape then Ok v      (* `return value`: String() is not called *)
+                      else match v with
+                           | None => Err e_nilresult                             (* value.String() on a nil interface *)
+                           | Some x =>
+                               s <- value_string x ;; s' <- apply_fn fn (map darg_of args) s ;;
+                               Ok (Some (if truncate_keeps fn (map darg_of args) s then x else VStr s'))
+                           end
+                  | DHook ap => ap v args
+                  end ;;
+            apply_dirs_hook rest v' (esc && negb (de_cancel de))
+      end
+  end.
+
+(* the Write calls of evalPrint after the loop: result.String(), escaped or not *)
+Definition print_writes_hook (mode : N) (dirs : list (bstr * list value)) (v : value) : outcome (list bstr) :=
+  '(v', esc) <- apply_dirs_hook dirs (Some v) (negb (mode =? 2)) ;;
+  s <- match v' with Some x => value_string x | None => Err e_nilresult end ;;
+  Ok (if esc then esc_writes [] s else [s]).
+
+(* evalPrint checks each directive's name and arity before evaluating its arguments *)
+Fixpoint print_dirs_hook (w : node -> M value) (l : list node) : M (list (bstr * list value)) :=
+  match l with
+  | [] => ret (map (fun nm => (nm, @nil value)) (c_oblig cf))
+  | NDirective _ name args :: r =>
+      match dir_table name with
+      | None => fail e_nodirective
+      | Some de =>
+          if negb (check_num_args (de_arities de) (length args)) then fail e_arity
+          else vs <-- eval_list w args ;;; rest <-- print_dirs_hook w r ;;; ret ((name, vs) :: rest)
+      end
+  | _ :: _ => fail e_unknown
+  end.
+
+Definition print_hook (w : node -> M value) (arg : node) (dirs : list node) : M value :=
+  v <-- w arg ;;;
+  match v with
+  | VUndef => fail e_undefined
+  | _ =>
+      ds <-- print_dirs_hook w dirs ;;;
+      st <-- get ;;;
+      ws <-- lift (print_writes_hook (mode st) ds v) ;;;
+      _ <-- write_all ws ;;; ret VUndef
+  end.
+
+(* one unfolding of state.walk with the hooks: loopFuncs are looked up first, then Funcs; every
+   {print} goes through the directive table *)
+Definition walk_body_hook (w : node -> M value) (n : node) : M value :=
+  match n with
+  | NFunc _ name args =>
+      if is_loop_func name then walk_body cf w n
+      else match fhooks name with
+           | Some h => _ <-- modify (fun st => set_cur st (pos_of n)) ;;; hook_call w h args
+           | None => walk_body cf w n
+           end
+  | NPrint _ arg dirs => _ <-- modify (fun st => set_cur st (pos_of n)) ;;; print_hook w arg dirs
+  | _ => walk_body cf w n
+  end.
+
+Fixpoint walk_hook (fuel : nat) (n : node) {struct fuel} : M value :=
+  match fuel with
+  | O => lift OutOfFuel
+  | S f => walk_body_hook (walk_hook f) n
+  end.
+End Hooks.
+
+(* the walker with the user's functions and directives *)
+Definition walk_user (cf : cfg) (ufuncs : bstr -> option user_func) (udirs : bstr -> option user_directive) :=
+  walk_hook cf (funcs_with_user ufuncs) (dirs_with_user udirs).
+
+(* Renderer.Execute around the hooked walker: Interp.render with [walk_hook] for [walk] *)
+Definition render_hook (cf : cfg) (fhooks : bstr -> option func_hook) (dir_table : bstr -> option dir_entry)
+           (fuel : nat) (name : bstr) (data_id : N) (data : list (bstr * value))
+           (cl : option nat) (bl : option N) (first_id : N) : render_result :=
+  match find_template (r_templates (c_reg cf)) name with
+  | None => {| rr_outcome := Err e_notemplate; rr_writes := []; rr_file := []; rr_line := 0; rr_unbound := 0; rr_shared_writes := [] |}
+  | Some t =>
+      let st0 := init_state (sc_enter (new_scope data_id data)) (entry_mode (t_ns_autoescape t)) name cl bl first_id in
+      let '(r, st) := walk_hook cf fhooks dir_table fuel (t_node t) st0 in
+      let mk o file line := {| rr_outcome := o; rr_writes := rev (out st); rr_file := file; rr_line := line;
+                               rr_unbound := unbound st; rr_shared_writes := shared_writes st |} in
+      match r with
+      | Ok _ => mk (Ok tt) [] 0
+      | Err m =>
+          match assoc_s name (r_sources (c_reg cf)), assoc_s name (r_files (c_reg cf)) with
+          | Some src, Some file =>
+              match line_number src (cur st) with
+              | Some l => mk (Err m) file l
+              | None => mk (Crash e_index) [] 0
+              end
+          | _, _ => mk (Err m) [] 0
+          end
+      | Crash m => mk (Crash m) [] 0
+      | Diverge => mk Diverge [] 0
+      | OutOfFuel => mk OutOfFuel [] 0
+      | OutOfModel => mk OutOfModel [] 0
+      end
+  end.
